@@ -263,7 +263,7 @@ def _describe(case):
 def atpsrv_direct(case, obs):
     what = _describe(case)
     if obs == "crash":
-        return ("the server process died (a panic outside recover: send on closed channel / nil dereference) "
+        return ("the server process died (a panic outside recover: send on closed channel / nil dereference / a panic below CallSignal) "
                 "under the client script " + what + " (if the script leaves the server running, the harness then ends the "
                 "input and releases every blocked step before it takes the next case: the crash may have happened there)")
     if obs == "panic":
